@@ -1,11 +1,11 @@
 package main
 
 import (
-	"regexp"
-	"os"
 	"fmt"
 	"go/token"
 	"go/types"
+	"os"
+	"regexp"
 	"sort"
 	"strings"
 
@@ -89,6 +89,7 @@ type Obl struct {
 	Fn     string
 	Inputs []InputSym // symbols to report in counterexamples
 	Expect string     // "unsat" (default) or "sat" (covers/canaries)
+	Detail string     // for syntactic obligations: why the goal is false
 }
 
 type InputSym struct {
@@ -115,39 +116,39 @@ func (s *State) clone() *State {
 }
 
 type Ctx struct {
-	identities int // goal conjuncts discharged by identity with an assumed fact
-	known map[string]bool // alpha-normalised quantified facts assumed unconditionally
-	W        *World
-	items    []Item
-	obls     []*Obl
-	nsym     int
-	compSort map[string]string // component key -> sort of component
-	initial  map[string]string // component key -> initial symbol
-	declared map[string]bool
-	typeIDs  map[string]int
-	strLits  map[string]string
-	oblNames map[string]int
-	cellN    int
-	fnName   string // top-level function under verification
-	props    []string
-	notes    map[string]bool // assumptions / defaulted externs encountered
-	curPos   token.Pos
-	entry    *State
-	inputs   []InputSym
-	failed   string // non-empty: out of reach reason
-	mode     string // "contract" or "sweep"
-	axiomsOn bool
+	identities int             // goal conjuncts discharged by identity with an assumed fact
+	known      map[string]bool // alpha-normalised quantified facts assumed unconditionally
+	W          *World
+	items      []Item
+	obls       []*Obl
+	nsym       int
+	compSort   map[string]string // component key -> sort of component
+	initial    map[string]string // component key -> initial symbol
+	declared   map[string]bool
+	typeIDs    map[string]int
+	strLits    map[string]string
+	oblNames   map[string]int
+	cellN      int
+	fnName     string // top-level function under verification
+	props      []string
+	notes      map[string]bool // assumptions / defaulted externs encountered
+	curPos     token.Pos
+	entry      *State
+	inputs     []InputSym
+	failed     string // non-empty: out of reach reason
+	mode       string // "contract" or "sweep"
+	axiomsOn   bool
 	// modular bookkeeping
-	externUsed map[string]bool
-	rec        map[string]string // when non-nil: component keys (with sorts) read during spec evaluation
-	opTmpl     map[string]*opTemplate
-	opReveal   map[string]*opTemplate // revealed bodies per (predicate, reveal set)
-	tmplHide   bool                   // evaluating a signature template: nested opaque predicates stay atoms
+	externUsed  map[string]bool
+	rec         map[string]string // when non-nil: component keys (with sorts) read during spec evaluation
+	opTmpl      map[string]*opTemplate
+	opReveal    map[string]*opTemplate // revealed bodies per (predicate, reveal set)
+	tmplHide    bool                   // evaluating a signature template: nested opaque predicates stay atoms
 	inlineExtra map[string]bool
-	top        *FuncContract
-	havocAlloc string
-	subTags    int
-	subFuns    []string
+	top         *FuncContract
+	havocAlloc  string
+	subTags     int
+	subFuns     []string
 }
 
 type engineErr struct{ msg string }
@@ -866,7 +867,8 @@ func (c *Ctx) mapMake(st *State, mi mapInfo, m string) {
 }
 
 // mapLen: len(m); the link between length and emptiness is asserted without quantifier alternation:
-//   len == 0 ==> no key present ;  len != 0 ==> some (witness) key present.
+//
+//	len == 0 ==> no key present ;  len != 0 ==> some (witness) key present.
 func (c *Ctx) mapLen(st *State, guard string, mi mapInfo, m string) string {
 	lc := c.mapLenComp(st, mi)
 	dom := c.mapDom(st, mi)
